@@ -127,6 +127,11 @@ fn run_one(cfg: &Cfg, prelude: &[u8], script: &[u8], trace: bool) -> (Vec<(Strin
         Some(m) => b.max_attempts(m),
         None => b.unlimited_attempts(),
     };
+    // (odd limits: no-op listeners; on_reconnect exists with the tracing feature, which the
+    // harness enables)
+    if cfg.max.unwrap_or(1) % 2 == 1 {
+        b = b.on_reconnect(|_| {}).on_state_change(|_, _| {});
+    }
     if cfg.predicate {
         b = b.reconnect_predicate(|e: &dyn StdError| e.to_string().ends_with("kind 0"));
     }
